@@ -231,11 +231,11 @@ Proof. intro H. unfold step_union. apply filter_sortedZ. apply all_items_sorted.
 Lemma cands_sorted fl t ax nt c : wf_tree t -> sortedZ (-1) (cands fl t ax nt c) = true.
 Proof. intro H. unfold cands. apply filter_sortedZ. apply all_items_sorted. exact H. Qed.
 
-Lemma step_body_sorted fl t nca0 S0 ds ax nt ap fastp fastv r :
+Lemma step_body_sorted fl t nca0 S0 ds ax nt hp ap fastp fastv r :
   wf_tree t -> f_alldup fl = false ->
   sortedZ (-1) S0 = true ->
   (forall nca rv sk l l', sortedZ (-1) l = true -> ap nca rv sk l = Ok l' -> sortedZ (-1) l' = true) ->
-  step_body fl t nca0 S0 ds ax nt ap fastp fastv = Ok (VSet r) ->
+  step_body fl t nca0 S0 ds ax nt hp ap fastp fastv = Ok (VSet r) ->
   sortedZ (-1) r = true.
 Proof.
   intros Hwf Hdup HS0 Hap H. unfold step_body in H.
@@ -252,6 +252,7 @@ Proof.
       [apply step_union_sorted; assumption|assumption]. }
   match type of H with (if ?c then _ else _) = _ => destruct c end.
   - (* as coded text() *)
+    match type of H with (if ?c then _ else _) = _ => destruct c end; [discriminate|].
     match type of H with bind ?x _ = _ => destruct x as [l|] eqn:Hl end; cbn [bind] in H; [|discriminate].
     inversion H; subst r. eapply Hap; [|exact Hl].
     destruct (is_child_axis ax); [apply text_map_sorted; exact HS|reflexivity].
@@ -308,7 +309,7 @@ Proof.
   - inversion H. apply singleton_sorted.
   - destruct (eval fl t cx base) as [bv|] eqn:Hb; cbn [bind] in H; [|discriminate].
     destruct bv as [S0|s|x|bb].
-    + refine (step_body_sorted fl t _ S0 ds ax nt _ _ _ l Hwf Hdup (IHb _ _ Hb) _ H).
+    + refine (step_body_sorted fl t _ S0 ds ax nt _ _ _ _ l Hwf Hdup (IHb _ _ Hb) _ H).
       intros nca rv sk l0 l' Hs Hl. eapply apply_preds_sorted; eauto.
     + unfold step_nonset in H. destruct (f_nonset fl); [|discriminate].
       destruct nt as [p n|[p|]| | |]; try discriminate. inversion H. reflexivity.
@@ -412,7 +413,7 @@ Lemma eval_step_eq fl t cx base ds ax nt ps :
   bind (eval fl t cx base) (fun bv =>
     match bv with
     | VSet S0 =>
-        step_body fl t (nca_of base (c_nca cx)) S0 ds ax nt
+        step_body fl t (nca_of base (c_nca cx)) S0 ds ax nt (match ps with PNil => false | _ => true end)
           (fun nca rv skip l => apply_preds fl t cx nca rv skip ps l)
           (fast_pre fl ax ds nt ps)
           (fun n0 keys => fast_vals fl t cx n0 keys ps)
